@@ -1624,9 +1624,10 @@ class SymCtx:
         s.add(*self.pc)
         # first try a "generic position" assignment of the real inputs (turns non-linear conditions into ground ones)
         reals = [c for n_, c in self.inputs.items() if self.input_kinds.get(n_) == 'real']
-        for scale in (1, 7):
+        for scale, off in ((1, Fraction(1, 13)), (1, 0), (7, 0)):
+            # (first choice: non-integer values, so that casts / truncations in the real code are visible to the twin)
             s.push()
-            s.add(*[c == z3.RealVal(str(Fraction((i * 37) % 11 * scale + i + 1, 1 + (i % 3)))) for i, c in enumerate(reals)])
+            s.add(*[c == z3.RealVal(str(Fraction((i * 37) % 11 * scale + i + 1, 1 + (i % 3)) + off)) for i, c in enumerate(reals)])
             if s.check() == z3.sat:
                 m = s.model()
                 return self._extract(m), m
